@@ -26,8 +26,9 @@ Fixpoint rsequence {A} (l : list (res A)) : res (list A) :=
 Record quirks := {
   q_cap_all : bool;          (* instantiate_name upper-cases every occurrence of the first letter *)
   q_scoped_substring : bool; (* scoped rewrite uses str.replace on the whole printed name *)
+  q_typedef_stale : bool;    (* typedef targets are looked up in the partially rewritten tree *)
 }.
-Definition impl_quirks : quirks := {| q_cap_all := true; q_scoped_substring := true |}.
+Definition impl_quirks : quirks := {| q_cap_all := true; q_scoped_substring := true; q_typedef_stale := true |}.
 
 Definition dummy_tn : typename := Typename [] (NStr "<IndexError>") [].
 Definition nth_inst (k : nat) (insts : list typename) : typename := nth k insts dummy_tn.
@@ -98,7 +99,12 @@ Definition inst_type (q : quirks) (tnames : list string) (insts : list typename)
           then replace_all tmpl (nm_str ins_n) str_arg
           else join "::" (map (fun s => if String.eqb s tmpl then nm_str ins_n else s)
                               (split_on "::" str_arg)) in
-      TPlain (Typename ins_ns (NStr new_name) ins_insts) c p b
+      match t1 with
+      | TTempl _ _ _ _ _ =>
+        (* helpers.py:89 reads ctype.is_basic, which a TemplatedType lacks: AttributeError *)
+        TPlain (Typename [] (NStr "<AttributeError>") []) c p b
+      | _ => TPlain (Typename ins_ns (NStr new_name) ins_insts) c p b
+      end
     end
   | None =>
     match index_of str_arg tnames with
@@ -300,7 +306,7 @@ Definition cands_done (q : quirks) (home : list string) (name : string) (content
                      end) content.
 
 Definition lookup (q : quirks) (top : list decl) (cur : list nat) (tn : typename) : list found :=
-  flat_map (fun pc => if completed (fst pc) cur
+  flat_map (fun pc => if andb (q_typedef_stale q) (completed (fst pc) cur)
                       then cands_done q (tn_ns tn) (tn_sname tn) (snd pc)
                       else cands_orig (tn_ns tn) (tn_sname tn) (snd pc))
            (find_ns (tn_ns tn) [] top).
@@ -363,3 +369,9 @@ End Namespace.
 
 Definition instantiate (q : quirks) (m : list decl) : res (list item) :=
   rbind (inst_content q m [] [] 0 m) (fun r => Ok (fst r ++ snd r)).
+
+(* C++ name of an instantiated class: classes.py:217-234 *)
+Definition iclass_cpp (c : iclass) : string :=
+  (ns_prefix (ic_home c) ++
+   (if ic_templated c then ic_orig c ++ "<" ++ join ", " (map tn_cpp (ic_insts c)) ++ ">" else ic_orig c))%string.
+
